@@ -2,8 +2,15 @@
 
 Three parties per step of a history: the real tensor / sptensor object, the property oracle
 (harness/props/c04_ref.py: a dict-of-cells mutable array that does what the property says) and the
-Lean model (Driver/C04: `c04_dense`, `c04_sparse`; `c04_spec` is the Lean specification, which must
+Lean model (Driver/C04: `c04_dense`, `c04_sparse`, `c04_extract`; `c04_spec` is the Lean specification, which must
 agree with the Python oracle).  After EVERY step the full state is compared.
+
+An operation has a MEANING (which cells, which values: all the oracle and the operation models see) and a SPELLING
+(which Python objects say it: Python int or NumPy integer scalar, list or array or tuple, 1-d or column values, how the
+empty tensor was built, `S[subs]` or `S.extract(subs)`); every documented spelling of every meaning is generated, the
+undocumented ones that still have one obvious meaning too (may be refused, must never be answered differently), and
+objects that are no index at all (must be refused).  `key_dispatch` compares `get_index_variant` with its Lean model
+(`c04_variant`) and with the documented kind of every key object.
 """
 from __future__ import annotations
 
@@ -34,8 +41,30 @@ RULE = ("random histories of 1..12 (thorough: up to 40) reads / writes on a dens
         "every rejected or out-of-domain call (a rejected write may already have grown the shape).  Index lists "
         "hold non-negative entries, now and then with a repeated entry (not together with an array / tensor "
         "right-hand side); subscript arrays are non-negative; array right-hand sides have exactly "
-        "the shape of the region's kept modes.  non-trivial = at least one accepted write changed a cell or the "
-        "shape; distinct = distinct case hash")
+        "the shape of the region's kept modes.  SPELLINGS (about half of the keys and 40 % of the right-hand sides "
+        "are not in the plain one): linear integer as Python int / np.int64 / np.int32; slice bounds as Python or "
+        "NumPy integers; linear indices as int64 / int32 array or Python list (every length, the ONE-element list "
+        "on purpose); subscripts as C- / F-ordered int64 / int32 array; in a region integers as Python / NumPy "
+        "integers and index lists as Python lists / 1-d arrays; sptensor.extract called directly with a p x n array or "
+        "with one full subscript as a 1-d vector (sparse_history reads); scalars as float / int / np.float64; one value "
+        "per position as 1-d array or list (tensor) / column (sptensor); the empty dense start as tensor(), "
+        "tensor(np.array([])) or tenzeros((0,)) (shape (0,) = no modes).  All of these must be accepted with the "
+        "oracle's result (sparse reads with an index list spelled as an array of two or more entries: recorded "
+        "finding, generated now and then).  Spellings the documentation does not name but that have one obvious "
+        "meaning - a float or 0-d array as linear integer, lists of NumPy integers / mixed lists / column lists / "
+        "float arrays / no entry at all as linear indices, a nested list of subscripts, tuples and lists of NumPy "
+        "integers as index lists, np.int64 as value, a column / row (tensor) or 1-d / list / row (sptensor) of "
+        "values, a one-element list as the value of one cell - may be refused (then the step is not compared with "
+        "the operation models, which start after the key dispatch), but if answered the answer is the oracle's "
+        "and the stored sparse representation is one subscript row and one value in a COLUMN per entry; they are "
+        "used only on writes that keep the shape.  Objects that are no index (None, str, Ellipsis, a non-integral "
+        "float, dict, set, complex, list of str / None, ragged list, 3-d array, object()) must be refused by reads "
+        "and writes of both classes: accepted = violation.  key_dispatch: get_index_variant on every kind of key "
+        "object (all scalar / array / tuple / range / str kinds, lists of Python ints of length 0..4, 60 (400) random "
+        "lists over int / bool / NumPy int / float / list / tuple / array / None / str elements) = Lean model = "
+        "documented kind; a key object whose model variant is UNKNOWN or raising is then assigned through on six "
+        "receivers (tensor / sptensor of order 2, 1, 0) and must be refused.  non-trivial = at least one accepted "
+        "write changed a cell or the shape; distinct = distinct case hash")
 ASSUMPTIONS = [
     "NumPy basic / advanced indexing, fancy assignment (last write wins) and assignment broadcasting behave as "
     "the model primitives npIndex / scatter / npBroadcast (exercised by this correspondence)",
@@ -43,6 +72,10 @@ ASSUMPTIONS = [
     "(dense returns a scalar for a one-element index list where sparse returns a 1-element tensor); with the "
     "model the kind and shape are compared exactly",
     "values are small integers, so float arithmetic is exact",
+    "which Python objects count as documented spellings of a key / value is the harness's reading of the docstrings "
+    "of __getitem__ / __setitem__ and of IndexType in pyttb_utils (form_optional, documented_variant); the Lean "
+    "model of get_index_variant sees the Python type of a key object as classify_obj reports it",
+    "the empty tensor is recognised by its stored shape (0,) or (), not through tensor.ndims",
 ]
 EXHAUSTIVE = {"quick": False, "thorough": False}
 
@@ -53,27 +86,126 @@ warnings.simplefilter("ignore")
 # ----------------------------------------------------------------------------
 
 
+# The JSON key / right-hand side / start describe WHAT is addressed or assigned (that is all the oracle and the Lean
+# model look at); optional "form" fields (per key, per region part "f", per right-hand side, per start) say HOW the
+# Python object is spelled: Python int vs NumPy integer scalar, list vs array vs tuple, 1-d vs column values, ...
+JUNK_KEYS = {
+    "none": lambda: None, "str": lambda: "ab", "emptystr": lambda: "", "ellipsis": lambda: Ellipsis, "frac": lambda: 2.5,
+    "dict": lambda: {0: 1}, "set": lambda: {1}, "complex": lambda: 1j, "strlist": lambda: ["a", "b"],
+    "nonelist": lambda: [None], "ragged": lambda: [[0], [0, 1]], "arr3d": lambda: np.zeros((1, 1, 2), dtype=int),
+    "object": lambda: object(),
+}
+
+
+def np_bounds(s):
+    return [None if b is None else np.int64(b) for b in s]
+
+
 def mk_key(key):
     k = key["k"]
+    f = key.get("form")
+    if k == "junk":
+        return JUNK_KEYS[key["what"]]()
     if k == "lin":
-        return key["i"]
+        i = key["i"]
+        if f == "np64":
+            return np.int64(i)
+        if f == "np32":
+            return np.int32(i)
+        if f == "float":
+            return float(i)
+        if f == "arr0":
+            return np.array(i)
+        return i
     if k == "linslice":
-        return slice(*key["s"])
+        return slice(*(np_bounds(key["s"]) if f == "np" else key["s"]))
     if k == "linlist":
-        return np.array(key["is"], dtype=int)
+        L = [int(i) for i in key["is"]]
+        if f == "list":
+            return L
+        if f == "nplist":
+            return [np.int64(i) for i in L]
+        if f == "mixedlist":
+            return L[:1] + [np.int64(i) for i in L[1:]]
+        if f == "collist":
+            return [[i] for i in L]
+        if f == "floatarr":
+            return np.array(L, dtype=float)
+        return np.array(L, dtype=np.int32 if f == "array32" else int)
     if k == "subs":
         rows = key["rows"]
         w = len(rows[0]) if rows else 0
-        return np.array(rows, dtype=int).reshape(len(rows), w)
+        if f == "nested":
+            return [list(r) for r in rows]
+        if f == "vec1d":  # one full subscript as a 1-d vector (sptensor.extract called directly)
+            return np.array(rows[0], dtype=int)
+        a = np.array(rows, dtype=np.int32 if f == "array32" else int).reshape(len(rows), w)
+        return np.asfortranarray(a) if f == "arrayF" else a
     parts = []
     for p in key["parts"]:
+        pf = p.get("f")
         if "int" in p:
-            parts.append(p["int"])
+            parts.append(np.int64(p["int"]) if pf == "np" else p["int"])
         elif "list" in p:
-            parts.append(list(p["list"]))
+            L = [int(i) for i in p["list"]]
+            parts.append(np.array(L, dtype=int) if pf == "array" else tuple(L) if pf == "tuple"
+                         else [np.int64(i) for i in L] if pf == "nplist" else L)
         else:
-            parts.append(slice(*p["slice"]))
+            parts.append(slice(*(np_bounds(p["slice"]) if pf == "np" else p["slice"])))
     return tuple(parts)
+
+
+def form_optional(cls, op):
+    """Is some part of the operation SPELLED in a form the class does not document (it may then refuse the operation;
+    if it answers, the answer must be the one of the plain spelling)?  Documented: Python int / NumPy integer scalar /
+    slice, a non-empty list of Python ints or a 1-d integer array as linear indices, a 2-d integer array of subscripts,
+    a tuple of integers, slices, lists of Python ints and 1-d integer arrays as region; values: a number, one value
+    per position as a vector (tensor: 1-d array or list; sptensor: a column)."""
+    key = op["key"]
+    k, f = key["k"], key.get("form")
+    if k == "lin" and f in ("float", "arr0"):
+        return True
+    if k == "linlist" and (f in ("nplist", "mixedlist", "collist", "floatarr") or not key["is"]):
+        return True
+    if k == "subs" and f == "nested":
+        return True
+    if k == "region" and any(p.get("f") in ("tuple", "nplist") for p in key["parts"]):
+        return True
+    rhs = op.get("rhs")
+    if rhs:
+        rf = rhs.get("form")
+        if rhs["r"] == "scalar" and rf == "npint":
+            return True
+        if rhs["r"] == "col" and rf is not None:
+            if cls == "dense" and rf == "list" and len(rhs["v"]) == 1:
+                return True  # NumPy refuses a one-element LIST for one cell (it takes the one-element array)
+            return rf in (("column", "row") if cls == "dense" else ("1d", "list", "row"))
+    return False
+
+
+def plain_spelling(op):
+    """remove every spelling that a class may refuse (in place)"""
+    key = op["key"]
+    for c in ("dense", "sparse"):
+        if not form_optional(c, op):
+            continue
+        if key["k"] in ("lin", "linlist", "subs") and key.get("form") in (
+                "float", "arr0", "nplist", "mixedlist", "collist", "floatarr", "nested"):
+            del key["form"]
+        for p in key.get("parts", ()):
+            if p.get("f") in ("tuple", "nplist"):
+                del p["f"]
+        if "rhs" in op:
+            op["rhs"].pop("form", None)
+    return op
+
+
+def is_sparse_read_array_list(op):
+    """recorded finding K04-sparse-read-array-list: a sparse region READ whose index list is a NumPy array of two or more
+    entries"""
+    key = op["key"]
+    return op["op"] == "read" and key["k"] == "region" and any(
+        "list" in p and p.get("f") == "array" and len(p["list"]) > 1 for p in key["parts"])
 
 
 def pooled_rhs(pool, rhs, cls, tr=None):
@@ -93,11 +225,14 @@ def pooled_rhs(pool, rhs, cls, tr=None):
 
 def mk_rhs(rhs, cls):
     r = rhs["r"]
+    f = rhs.get("form")
     if r == "scalar":
-        return float(rhs["v"])
+        v = rhs["v"]
+        return int(v) if f == "int" else np.float64(v) if f == "npfloat" else np.int64(v) if f == "npint" else float(v)
     if r == "col":
         a = np.array(rhs["v"], dtype=float)
-        return a if cls == "dense" else a.reshape(-1, 1)
+        f = f or ("1d" if cls == "dense" else "column")
+        return a if f == "1d" else a.reshape(-1, 1) if f == "column" else a.reshape(1, -1) if f == "row" else a.tolist()
     arr = np.array(rhs["data"], dtype=float).reshape(tuple(rhs["shape"]), order="F")
     if r == "arr":
         return arr
@@ -109,7 +244,9 @@ def mk_obj(start, cls):
     shape = start["shape"]
     if cls == "dense":
         if not shape:
-            return ttb.tensor()
+            # the empty tensor, however it was built (no modes: the first assignment creates them)
+            f = start.get("form")
+            return ttb.tensor(np.array([])) if f == "array" else ttb.tenzeros((0,)) if f == "tenzeros" else ttb.tensor()
         return ttb.tensor(np.array(start["data"], dtype=float).reshape(tuple(shape), order="F"), copy=True)
     if not shape:
         return ttb.sptensor()
@@ -127,9 +264,12 @@ def start_oracle(start, cls):
 
 
 # canonical states --------------------------------------------------------------
-def dense_state(x):
+def dense_state(x, receiver=False):
     d = np.asarray(x.data)
-    return {"shape": [int(s) for s in x.shape], "data": jval(d.flatten(order="F"))}
+    shape = [int(s) for s in x.shape]
+    if receiver and shape == [0]:
+        shape = []  # tensor(np.array([])) / tenzeros((0,)) is the empty tensor: shape (0,) stands for "no modes"
+    return {"shape": shape, "data": jval(d.flatten(order="F"))}
 
 
 def sparse_state(x):
@@ -138,6 +278,21 @@ def sparse_state(x):
     return {"shape": [int(s) for s in x.shape],
             "subs": [] if subs.size == 0 else [[int(q) if float(q).is_integer() else float(q) for q in r] for r in subs.tolist()],
             "vals": [] if vals.size == 0 else jval(vals)}
+
+
+def sparse_repr(x):
+    """defects of the stored representation itself: one subscript row and one value (a column) per stored entry"""
+    subs, vals = np.asarray(x.subs), np.asarray(x.vals)
+    if vals.size == 0 and subs.size == 0:
+        return []
+    bad = []
+    if vals.ndim != 2 or vals.shape[1] != 1:
+        bad.append(f"values stored with shape {tuple(vals.shape)}, not as a column")
+    if subs.ndim != 2 or subs.shape[1] != len(x.shape):
+        bad.append(f"subscripts stored with shape {tuple(subs.shape)} for order {len(x.shape)}")
+    elif vals.ndim >= 1 and subs.shape[0] != vals.shape[0]:
+        bad.append(f"{subs.shape[0]} subscripts for {vals.shape[0]} values")
+    return bad
 
 
 def sparse_wf(st):
@@ -278,7 +433,62 @@ def gen_slice(rng, ext, hi, new_mode):
     return [rng.choice([None, -1, ext - 1]), rng.choice([None, 0]), rng.choice([-1, -2])]
 
 
-def gen_key(rng, shape, write, d10=False, for_sparse=False):
+def pick(rng, weighted):
+    """weighted choice from [(item, weight), ...]"""
+    r = rng.random() * sum(w for _, w in weighted)
+    for item, w in weighted:
+        r -= w
+        if r < 0:
+            return item
+    return weighted[-1][0]
+
+
+def gen_key(rng, shape, write, d10=False, for_sparse=False, cls=None):
+    """an abstract key (gen_key_abstract) in one of its Python spellings"""
+    key = gen_key_abstract(rng, shape, write, d10=d10, for_sparse=for_sparse)
+    if rng.random() < 0.4:
+        return key  # the plain spelling everywhere
+    k = key["k"]
+    if k == "lin":
+        f = pick(rng, [(None, 2), ("np64", 4), ("np32", 2), ("float", 0.5), ("arr0", 0.3)])
+    elif k == "linslice":
+        f = pick(rng, [(None, 1), ("np", 1)])
+    elif k == "linlist":
+        f = pick(rng, [(None, 2), ("list", 6), ("array32", 1), ("nplist", 0.6), ("mixedlist", 0.4), ("collist", 0.3),
+                       ("floatarr", 0.2)])
+        if f in (None, "list") and rng.random() < 0.35:
+            key["is"] = key["is"][:1]  # the one-element list / array
+        elif rng.random() < 0.04:
+            key["is"] = []  # no position at all
+    elif k == "subs":
+        f = pick(rng, [(None, 2), ("array32", 1), ("arrayF", 1), ("nested", 0.4)])
+        if cls == "sparse" and not write:
+            # sptensor.extract called directly, with a p x n array or with ONE full subscript as a 1-d vector
+            if rng.random() < 0.6:
+                key["call"] = "extract"
+                f = None
+                if rng.random() < 0.6:
+                    key["rows"] = key["rows"][:1]
+                    f = "vec1d"
+    else:
+        f = None
+        for p in key["parts"]:
+            if "int" in p:
+                pf = pick(rng, [(None, 2), ("np", 1)])
+            elif "slice" in p:
+                pf = pick(rng, [(None, 3), ("np", 1)]) if any(b is not None for b in p["slice"]) else None
+            else:
+                pf = pick(rng, [(None, 3), ("array", 3), ("tuple", 0.3), ("nplist", 0.3)])
+                if pf == "array" and for_sparse and not write and len(p["list"]) > 1 and rng.random() < 0.93:
+                    pf = None  # recorded finding K04-sparse-read-array-list: generated now and then only
+            if pf:
+                p["f"] = pf
+    if f:
+        key["form"] = f
+    return key
+
+
+def gen_key_abstract(rng, shape, write, d10=False, for_sparse=False):
     n = len(shape)
     cells = numel(shape) if n else 0
     kinds = ["region"] * 5 + ["subs"] * 3 + ["lin", "linslice", "linlist"]
@@ -347,6 +557,22 @@ def region_shape(ref, key):
 
 
 def gen_rhs(rng, ref, key, for_sparse=False):
+    """a right-hand side (gen_rhs_abstract) in one of its Python spellings"""
+    rhs = gen_rhs_abstract(rng, ref, key, for_sparse=for_sparse)
+    if rhs["r"] == "scalar":
+        f = pick(rng, [(None, 6), ("int", 2), ("npfloat", 1.5), ("npint", 0.4)])
+    elif rhs["r"] == "col":
+        # None = the documented vector of the class (tensor: 1-d array, sptensor: column)
+        f = pick(rng, [(None, 6), ("1d", 1.5), ("list", 0.7), ("row", 0.4)] if for_sparse
+                 else [(None, 5), ("list", 3), ("column", 0.5), ("row", 0.5)])
+    else:
+        f = None
+    if f:
+        rhs["form"] = f
+    return rhs
+
+
+def gen_rhs_abstract(rng, ref, key, for_sparse=False):
     k = key["k"]
     if k == "region":
         rshape, _ = region_shape(ref, key)
@@ -374,7 +600,13 @@ def gen_malformed(rng, ref):
     shape = ref.shape
     n = len(shape)
     cells = ref.n_cells()
-    choice = rng.choice(["lin_oob", "read_oob", "short_key", "rhs_size", "neg_below", "subs_narrow"])
+    choice = rng.choice(["lin_oob", "read_oob", "short_key", "rhs_size", "neg_below", "subs_narrow", "junk", "junk"])
+    if choice == "junk":
+        # an object that is no index at all: must be refused, by reads and by writes, whatever the tensor is
+        op = {"op": rng.choice(["read", "write", "write"]), "key": {"k": "junk", "what": rng.choice(sorted(JUNK_KEYS))}}
+        if op["op"] == "write":
+            op["rhs"] = {"r": "scalar", "v": rng.choice([5, 0])}
+        return op
     if n == 0:
         return {"op": "read", "key": {"k": "region", "parts": [{"int": 0}]}}
     if choice == "lin_oob":
@@ -410,7 +642,12 @@ def gen_start(rng, cls):
         cells = {} if t == "zero" else {s: rnd_val(rng, 0.45) for s in all_subs(shape)}
     m = MutArr(shape, cells)
     if cls == "dense":
-        return {"shape": shape, "data": m.dense_j()["data"]}
+        st = {"shape": shape, "data": m.dense_j()["data"]}
+        if not shape:
+            f = rng.choice([None, "array", "array", "tenzeros"])  # how the empty tensor was built
+            if f:
+                st["form"] = f
+        return st
     items = sorted(m.cells.items(), key=lambda kv: tuple(reversed(kv[0])))
     order = rng.choice(["sorted", "reversed", "shuffled"])
     if order == "reversed":
@@ -430,14 +667,19 @@ def gen_history(rng, cls, length, d10_rate=0.0, malformed_rate=0.06):
             ops.append(gen_malformed(rng, ref))
             continue
         write = rng.random() < 0.7 or not ref.shape
-        key = gen_key(rng, ref.shape, write, d10=rng.random() < d10_rate, for_sparse=cls != "dense")
+        key = gen_key(rng, ref.shape, write, d10=rng.random() < d10_rate, for_sparse=cls != "dense", cls=cls)
         op = {"op": "write" if write else "read", "key": key}
         if write:
             op["rhs"] = gen_rhs(rng, ref, key, for_sparse=cls != "dense")
             try:
                 probe = ref.copy()
                 probe.write(key, op["rhs"])
-                if cls == "dense" or not sparse_may_reject(op, ref, None):
+                classes = ("dense", "sparse") if cls == "both" else (cls,)
+                if probe.shape != ref.shape and any(form_optional(c, op) for c in classes):
+                    # a spelling that may be refused only on writes that keep the shape: the shapes the later operations
+                    # are generated for do not depend on whether the class takes it
+                    plain_spelling(op)
+                if not (cls != "dense" and sparse_may_reject(op, ref, None)):
                     ref = probe
             except Reject:
                 pass
@@ -449,6 +691,26 @@ def gen_history(rng, cls, length, d10_rate=0.0, malformed_rate=0.06):
                 ops.append({"op": "read", "key": copy.deepcopy(key)})
             ops.append(copy.deepcopy(op))
     return {"cls": cls, "start": start, "ops": ops}
+
+
+def form_tags(op):
+    key = op["key"]
+    out = []
+    if key["k"] == "junk":
+        return ["key:junk/" + key["what"]]
+    if key.get("form"):
+        out.append(f"key:{key['k']}/{key['form']}")
+    if key.get("call"):
+        out.append("call:" + key["call"])
+    if key["k"] == "linlist" and len(key["is"]) <= 1:
+        out.append(f"key:linlist/{key.get('form') or 'array'}/{len(key['is'])}-element")
+    for p in key.get("parts", ()):
+        if p.get("f"):
+            out.append(f"part:{'int' if 'int' in p else 'list' if 'list' in p else 'slice'}/{p['f']}")
+    rhs = op.get("rhs")
+    if rhs and rhs.get("form"):
+        out.append(f"rhs:{rhs['r']}/{rhs['form']}")
+    return out
 
 
 # ----------------------------------------------------------------------------
@@ -465,7 +727,7 @@ class Trace:
 
 
 def state_of(x, cls):
-    return dense_state(x) if cls == "dense" else sparse_state(x)
+    return dense_state(x, receiver=True) if cls == "dense" else sparse_state(x)
 
 
 def run_object(cls, start, ops):
@@ -487,10 +749,14 @@ def run_object(cls, start, ops):
         except Reject:
             orej, oout = True, None
         # implementation
+        junk = op["key"]["k"] == "junk"
+        optional = not junk and form_optional(cls, op)
         try:
             if write:
                 x[mk_key(op["key"])] = pooled_rhs(pool, op["rhs"], cls, tr)
                 iout = {"written": True}
+            elif op["key"].get("call") == "extract":
+                iout = read_canon(x.extract(mk_key(op["key"])))
             else:
                 iout = read_canon(x[mk_key(op["key"])])
             irej = False
@@ -500,6 +766,21 @@ def run_object(cls, start, ops):
         tr.steps.append(step)
         keytag = op["key"]["k"] + ("/" + op["rhs"]["r"] + ("0" if op["rhs"].get("v") == 0 else "") if write else "/read")
         tr.tags.add(keytag)
+        for t in form_tags(op):
+            tr.tags.add(t)
+        if junk and not irej:
+            # an object that is no index was taken for one (or silently ignored): the request is neither performed as
+            # asked nor refused
+            try:
+                after = state_of(x, cls)
+            except Exception:  # noqa: BLE001
+                after = None
+            what = ("was accepted and silently ignored" if after == before else "was accepted and changed the tensor") \
+                if write else f"was answered with {json.dumps(iout)[:80]}"
+            tr.violation = (i, f"{cls}: a {'write' if write else 'read'} whose key is no index ({op['key']['what']}) {what} "
+                            f"instead of being refused", {"op": op, "before": before, "after": after})
+            step["status"] = "violation"
+            return tr
         if irej or orej:
             # the object continues from the snapshot
             try:
@@ -513,6 +794,12 @@ def run_object(cls, start, ops):
             if orej:
                 step["status"] = "out-of-domain"
                 tr.tags.add("out-of-domain:" + ("rejected" if irej else "accepted"))
+                continue
+            if optional:
+                # an undocumented spelling may be refused (never answered differently, see below); the operation
+                # models do not know spellings, so this step is not compared with them
+                step["status"] = "form-limit"
+                tr.tags.add("form-refused")
                 continue
             allowed = cls == "sparse" and sparse_may_reject(op, ref_before, oout)
             if allowed:
@@ -531,7 +818,7 @@ def run_object(cls, start, ops):
         want = ref.dense_j()
         if write:
             got = after if cls == "dense" else sparse_denote(after)
-            wf = [] if cls == "dense" else sparse_wf(after)
+            wf = [] if cls == "dense" else sparse_repr(x) + sparse_wf(after)
             if wf:
                 tr.violation = (i, f"sparse tensor not well formed after the write: {', '.join(wf)}",
                                 {"op": op, "before": before, "after": after})
@@ -557,14 +844,27 @@ def run_object(cls, start, ops):
 
 
 def model_requests(cls, tr):
-    """one single-step request per executed step, from the implementation's state before the step"""
+    """one single-step request per executed step, from the implementation's state before the step (a key that is no
+    index has no model counterpart: the step is checked against "must be refused" alone)"""
     name = "c04_dense" if cls == "dense" else "c04_sparse"
-    return [{"op": name, "start": s["before"], "ops": [s["op"]]} for s in tr.steps]
+    out = []
+    for s in tr.steps:
+        key = s["op"]["key"]
+        if key["k"] == "junk":
+            out.append({"op": "c04_variant", "obj": {"t": "other"}})  # placeholder keeping steps and replies aligned
+        elif key.get("call") == "extract":
+            arg = {"vec": key["rows"][0]} if key.get("form") == "vec1d" else {"rows": key["rows"]}
+            out.append({"op": "c04_extract", "start": s["before"], **arg})
+        else:
+            out.append({"op": name, "start": s["before"], "ops": [s["op"]]})
+    return out
 
 
 def compare_model(cls, tr, replies):
     """-> (kind, what, detail) or None; kind = 'violation' | 'corr'"""
     for i, (s, rep) in enumerate(zip(tr.steps, replies)):
+        if s["op"]["key"]["k"] == "junk" or s["status"] == "form-limit":
+            continue  # the Python spelling of a key / value is not part of the operation models
         m = rep["steps"][0]
         mrej = isinstance(m["out"], dict) and m["out"].get("reject") is True
         irej = isinstance(s["impl_out"], dict) and s["impl_out"].get("reject") is True
@@ -644,9 +944,26 @@ def shrink_case(case):
         order = sorted(range(len(st["subs"])), key=lambda k: tuple(reversed(st["subs"][k])))
         if order != list(range(len(order))):
             yield {**case, "start": {**st, "subs": [st["subs"][k] for k in order], "vals": [st["vals"][k] for k in order]}}
+    if st.get("form"):
+        yield {**case, "start": {k: v for k, v in st.items() if k != "form"}}
+    # plain spellings
+    for i, op in enumerate(ops):
+        q = copy.deepcopy(op)
+        changed = False
+        for d in [q["key"], q.get("rhs") or {}] + list(q["key"].get("parts", ())):
+            if d.get("form") == "vec1d":
+                continue  # only `extract` takes one subscript as a 1-d vector (for X[...] a 1-d array is linear)
+            for f in ("form", "f", "call"):
+                if f in d:
+                    del d[f]
+                    changed = True
+        if changed:
+            yield {**case, "ops": ops[:i] + [q] + ops[i + 1:]}
     # simpler keys / right-hand sides
     for i, op in enumerate(ops):
         key = op["key"]
+        if key["k"] == "junk":
+            continue
         if key["k"] == "region":
             for m, p in enumerate(key["parts"]):
                 if "slice" in p and p["slice"] != [None, None, None]:
@@ -741,13 +1058,28 @@ class DenseHistory(History):
     name = "dense_history"
     cls = "dense"
     theorems = ("C04_dense_step", "C04_dense_history", "C04_dense_start", "C04_last_write_wins",
-                "C04_frame", "C04_growth_zero_filled")
+                "C04_frame", "C04_growth_zero_filled", "C04_dense_setitem_documented_form")
 
     def fixed_cases(self):
         out = []
         for shape, op in D10_TEXT_OPS:
             data = list(range(1, numel(shape) + 1))
             out.append({"cls": "dense", "start": {"shape": shape, "data": data}, "ops": [op]})
+        # the first assignment to the empty tensor, however the empty tensor was built, through every kind of key that can
+        # create modes (open slice first / last / alone, bounded slice, integers, index list, subscripts), then read back
+        A = [None, None, None]
+        firsts = [[{"slice": A}, {"int": 1}], [{"slice": A}], [{"int": 1}, {"slice": A}], [{"int": 1}, {"int": 2}],
+                  [{"slice": [None, 2, None]}, {"slice": A}], [{"list": [0, 2]}, {"slice": A}, {"int": 0}],
+                  [{"slice": A}, {"slice": A}]]
+        for form in (None, "array", "tenzeros"):
+            start = {"shape": [], "data": [], **({"form": form} if form else {})}
+            for parts in firsts:
+                w = {"op": "write", "key": {"k": "region", "parts": parts}, "rhs": {"r": "scalar", "v": 3}}
+                r = {"op": "read", "key": {"k": "region", "parts": [{"slice": A} for _ in parts]}}
+                out.append({"cls": "dense", "start": dict(start), "ops": [w, r]})
+            out.append({"cls": "dense", "start": dict(start),
+                        "ops": [{"op": "write", "key": {"k": "subs", "rows": [[1, 2], [0, 0]]}, "rhs": {"r": "col", "v": [5, -1]}},
+                                {"op": "read", "key": {"k": "lin", "i": 5}}]})
         return out
 
 
@@ -755,13 +1087,38 @@ class SparseHistory(History):
     name = "sparse_history"
     cls = "sparse"
     theorems = ("C04_sparse_step", "C04_sparse_step_wf", "C04_sparse_history",
-                "C04_sparse_history_wf", "C04_sparse_start")
+                "C04_sparse_history_wf", "C04_sparse_start", "C04_sparse_setitem_documented_form", "C04_extract",
+                "C04_extract_refuses")
 
     def fixed_cases(self):
         # deterministic member of the known finding "repeated entry in an index list of a sparse read"
         return [{"cls": "sparse", "start": {"shape": [2, 3], "subs": [[0, 0], [1, 0], [0, 1], [1, 1], [0, 2], [1, 2]],
                                             "vals": [1, 4, 2, 5, 3, 6]},
-                 "ops": [{"op": "read", "key": {"k": "region", "parts": [{"list": [1, 1]}, {"slice": [None, None, None]}]}}]}]
+                 "ops": [{"op": "read", "key": {"k": "region", "parts": [{"list": [1, 1]}, {"slice": [None, None, None]}]}}]},
+                # ... and of "an index list spelled as a NumPy array of two or more entries in a sparse read"
+                {"cls": "sparse", "start": {"shape": [2, 3], "subs": [[0, 0], [1, 0], [0, 1], [1, 1], [0, 2], [1, 2]],
+                                            "vals": [1, 4, 2, 5, 3, 6]},
+                 "ops": [{"op": "read", "key": {"k": "region", "parts": [{"int": 1}, {"list": [0, 2], "f": "array"}]}}]}
+                ] + self.value_spellings()
+
+    @staticmethod
+    def value_spellings():
+        """every spelling of "one value per subscript" assigned to a tensor without entries, to one with entries
+        elsewhere and to one holding the addressed entries (refused or stored as a column), then read back by `extract`
+        (2-d and 1-d argument) and by subscripts"""
+        out = []
+        rows = [[0, 0], [1, 1]]
+        starts = [{"shape": [2, 2], "subs": [], "vals": []}, {"shape": [2, 2], "subs": [[1, 0]], "vals": [4]},
+                  {"shape": [2, 2], "subs": [[1, 1], [0, 0]], "vals": [4, -3]}]
+        for st in starts:
+            for form in (None, "1d", "list", "row", "column"):
+                w = {"op": "write", "key": {"k": "subs", "rows": rows},
+                     "rhs": {"r": "col", "v": [1, 2], **({"form": form} if form else {})}}
+                out.append({"cls": "sparse", "start": dict(st), "ops": [
+                    w, {"op": "read", "key": {"k": "subs", "rows": rows, "call": "extract"}},
+                    {"op": "read", "key": {"k": "subs", "rows": [[1, 1]], "call": "extract", "form": "vec1d"}},
+                    {"op": "read", "key": {"k": "subs", "rows": [[1, 1], [1, 0]]}}]})
+        return out
 
 
 class PairedHistory(Family):
@@ -791,7 +1148,8 @@ class PairedHistory(Family):
             accepted = 0
             ref = start_oracle(st, "sparse")
             for i, op in enumerate(c["ops"]):
-                if op["key"]["k"] == "region" and (is_d10(op["key"]) or (op["op"] == "read" and has_repeated_list(op["key"]))):
+                if op["key"]["k"] == "region" and (is_d10(op["key"]) or is_sparse_read_array_list(op) or (
+                        op["op"] == "read" and has_repeated_list(op["key"]))):
                     continue  # listed findings, exercised in dense_history / sparse_history
                 # only operations of the property's domain (the oracle accepts them) drive the pair
                 try:
@@ -843,5 +1201,184 @@ class PairedHistory(Family):
         return out
 
 
+# ----------------------------------------------------------------------------
+# the step in front of the operations: which Python object is which kind of key
+# ----------------------------------------------------------------------------
+ELEMS = {"int": lambda: 1, "bool": lambda: True, "np": lambda: np.int64(2), "float": lambda: 2.0, "list": lambda: [0],
+         "tuple": lambda: (0,), "arr": lambda: np.array([0]), "none": lambda: None, "str": lambda: "a"}
+OBJ_ATOMS = [
+    {"t": "int", "v": 3}, {"t": "int", "v": -1}, {"t": "bool"}, {"t": "np64", "v": 3}, {"t": "np32", "v": 3}, {"t": "npuint8", "v": 3},
+    {"t": "float", "v": 2.0}, {"t": "float", "v": 2.5}, {"t": "npfloat", "v": 2.0}, {"t": "npbool"}, {"t": "complex"}, {"t": "none"},
+    {"t": "ellipsis"}, {"t": "str", "v": "ab"}, {"t": "str", "v": ""}, {"t": "dict"}, {"t": "set"}, {"t": "object"},
+    {"t": "slice", "s": [1, 4, None]}, {"t": "slice", "s": [None, None, None]}, {"t": "slice", "s": [1, None, 2], "np": True},
+    {"t": "tuple", "n": 0}, {"t": "tuple", "n": 1}, {"t": "tuple", "n": 2}, {"t": "tuple", "n": 3},
+    {"t": "range", "n": 0}, {"t": "range", "n": 3},
+] + [{"t": "ndarray", "shape": sh, "dtype": dt} for sh in ([], [0], [1], [3], [2, 2], [0, 2], [2, 1], [1, 2], [1, 1, 2])
+     for dt in ("int", "int32", "float")]
+
+
+def build_obj(d):
+    t = d["t"]
+    if t == "int":
+        return int(d["v"])
+    if t == "bool":
+        return True
+    if t in ("np64", "np32", "npuint8"):
+        return {"np64": np.int64, "np32": np.int32, "npuint8": np.uint8}[t](d["v"])
+    if t == "float":
+        return float(d["v"])
+    if t == "npfloat":
+        return np.float64(d["v"])
+    if t == "npbool":
+        return np.bool_(True)
+    if t in ("complex", "none", "ellipsis", "dict", "set", "object"):
+        return {"complex": 1j, "none": None, "ellipsis": Ellipsis, "dict": {0: 1}, "set": {1}, "object": object()}[t]
+    if t == "str":
+        return d["v"]
+    if t == "slice":
+        return slice(*(np_bounds(d["s"]) if d.get("np") else d["s"]))
+    if t == "tuple":
+        return tuple([0, slice(None), 1][: d["n"]])
+    if t == "range":
+        return range(d["n"])
+    if t == "ndarray":
+        sh = tuple(d["shape"])
+        return np.zeros(sh, dtype={"int": int, "int32": np.int32, "float": float}[d["dtype"]])
+    return [ELEMS[e]() for e in d["elems"]]  # list
+
+
+def classify_obj(obj):
+    """the Python type of a key object, as `KeyObj` of Ops/IndexForms.lean (written against Python / NumPy, not against
+    pyttb): int (bool is an int), NumPy integer, slice, array with its number of axes, tuple, any other Sequence with the
+    types of its elements, anything else"""
+    from collections.abc import Sequence
+
+    def elem(e):
+        if isinstance(e, int):
+            return "int"
+        if isinstance(e, np.integer):
+            return "npint"
+        if isinstance(e, (float, np.floating)):
+            return "float"
+        if isinstance(e, (list, tuple, np.ndarray)):
+            return "seq"
+        return "other"
+    if isinstance(obj, int):
+        return {"t": "int"}
+    if isinstance(obj, np.integer):
+        return {"t": "npint"}
+    if isinstance(obj, slice):
+        return {"t": "slice"}
+    if isinstance(obj, np.ndarray):
+        return {"t": "ndarray", "ndim": obj.ndim}
+    if isinstance(obj, tuple):
+        return {"t": "tuple"}
+    if isinstance(obj, Sequence):
+        return {"t": "seq", "elems": [elem(e) for e in obj]}
+    return {"t": "other"}
+
+
+def documented_variant(d):
+    """the access kind the documentation promises for a key object (None: no promise): an integer (Python or NumPy) or a
+    slice is a linear index; a 1-d array or a non-empty list of Python ints are linear indices; a 2-d array holds
+    subscripts; a tuple is a region"""
+    t = d["t"]
+    if t in ("int", "np64", "np32", "npuint8", "slice"):
+        return "LINEAR"
+    if t == "ndarray" and d["dtype"] != "float" and len(d["shape"]) in (1, 2):
+        return "LINEAR" if len(d["shape"]) == 1 else "SUBSCRIPTS"
+    if t == "tuple":
+        return "SUBTENSOR"
+    if t == "list" and d["elems"] and all(e == "int" for e in d["elems"]):
+        return "LINEAR"
+    return None
+
+
+NO_INDEX = ("float", "npfloat", "npbool", "complex", "none", "ellipsis", "str", "dict", "set", "object")
+
+
+def dispatch_receivers():
+    X = np.arange(1.0, 7.0).reshape(2, 3)
+    v = np.array([1.0, 0.0, 3.0])
+    return [("tensor 2x3", lambda: ttb.tensor(X.copy()), "dense"), ("tensor 3", lambda: ttb.tensor(v.copy()), "dense"),
+            ("sptensor 2x3", lambda: ttb.tensor(X.copy()).to_sptensor(), "sparse"),
+            ("sptensor 3", lambda: ttb.tensor(v.copy()).to_sptensor(), "sparse"),
+            ("empty tensor", lambda: ttb.tensor(), "dense"), ("empty sptensor", lambda: ttb.sptensor(), "sparse")]
+
+
+class KeyDispatch(Family):
+    """get_index_variant on every kind of key object: implementation = Lean model (`getIndexVariant`) = the documented
+    kind; a key object the dispatcher does not recognise is refused by `__setitem__` of both classes (never ignored)"""
+    name = "key_dispatch"
+    theorems = ("C04_dispatch_documented", "C04_dispatch_unrecognised_iff", "C04_dense_setitem_documented_form",
+                "C04_sparse_setitem_documented_form", "C04_dense_setitem_unrecognised_refused",
+                "C04_sparse_setitem_unrecognised_refused")
+
+    def gen(self, rng, tier):
+        out = [{"obj": dict(d)} for d in OBJ_ATOMS]
+        for n in range(1, 5):  # lists of Python ints of every small length, the one-element list included
+            out.append({"obj": {"t": "list", "elems": ["int"] * n}})
+        out.append({"obj": {"t": "list", "elems": []}})
+        names = sorted(ELEMS)
+        for _ in range(60 if tier == "quick" else 400):
+            n = rng.randint(1, 4)
+            first = rng.choice(["int", "int", "int"] + names)
+            out.append({"obj": {"t": "list", "elems": [first] + [rng.choice(["int", "int"] + names) for _ in range(n - 1)]}})
+        return out
+
+    def shrink(self, case):
+        d = case["obj"]
+        if d["t"] == "list":
+            for i in range(len(d["elems"]) - 1, -1, -1):
+                yield {"obj": {**d, "elems": d["elems"][:i] + d["elems"][i + 1:]}}
+
+    def evaluate(self, cases):
+        from pyttb.pyttb_utils import get_index_variant
+        objs = [build_obj(c["obj"]) for c in cases]
+        replies = drive([{"op": "c04_variant", "obj": classify_obj(o)} for o in objs])
+        out = []
+        for c, rep in zip(cases, replies):
+            d = c["obj"]
+            try:
+                impl = get_index_variant(build_obj(d)).name
+            except Exception as e:  # noqa: BLE001
+                impl = "raises"
+                exc = f"{type(e).__name__}: {str(e)[:80]}"
+            model = "raises" if rep.get("reject") else rep["variant"]
+            want = documented_variant(d)
+            tags = [d["t"] + (f"/{len(d['shape'])}-d/{d['dtype']}" if d["t"] == "ndarray" else ""),
+                    "model:" + model, "documented" if want else "undocumented"]
+            if d["t"] == "list":
+                tags.append(f"list-len{len(d['elems'])}")
+                tags.append("list-first:" + (d["elems"][0] if d["elems"] else "none"))
+            bad = None
+            if want and impl != want:
+                bad = ("violation", f"get_index_variant takes the documented key object {json.dumps(d)} for {impl}"
+                       + (f" ({exc})" if impl == "raises" else "") + f", it is a {want} key")
+            elif d["t"] in NO_INDEX and impl not in ("UNKNOWN", "raises"):
+                bad = ("violation", f"get_index_variant takes {json.dumps(d)}, which is no index, for {impl}")
+            elif impl != model:
+                bad = ("corr", f"get_index_variant({json.dumps(d)}) = {impl}, the Lean model says {model}")
+            if not bad and model in ("UNKNOWN", "raises"):
+                # proved for the model (C04_*_setitem_unrecognised_refused): such a key object is refused by __setitem__
+                for label, mk, cls in dispatch_receivers():
+                    x = mk()
+                    before = state_of(x, cls)
+                    try:
+                        x[build_obj(d)] = 7.0
+                    except Exception:  # noqa: BLE001
+                        continue
+                    after = state_of(x, cls)
+                    bad = ("violation", f"{label}: X[{json.dumps(d)}] = 7.0 is an assignment through a key object that "
+                           f"the dispatcher does not recognise; it was not refused and "
+                           + ("left the tensor unchanged (the assignment is lost)" if after == before else "changed the tensor"))
+                    break
+            if bad:
+                out.append(Verdict(bad[0], bad[1], {"variant": impl}, {"variant": model}, want, tags, True))
+            else:
+                out.append(Verdict("ok", "", {"variant": impl}, {"variant": model}, want, tags, impl not in ("raises",)))
+        return out
+
+
 def families():
-    return [DenseHistory(), SparseHistory(), PairedHistory()]
+    return [DenseHistory(), SparseHistory(), PairedHistory(), KeyDispatch()]
